@@ -252,10 +252,11 @@ def _sym_laws(ctx, m, mdl, cfg, pre=''):
     ref = [R(m._calc_deterministic_path_loss_dB(d, **mdl.kargs(cfg, i)))
            for i, d in enumerate(ds)]
 
-    def pack(vals):
-        if shape == 'array2':
-            return np.array(list(vals), dtype=object)
-        return list(vals)
+    def pack(vals, dist=False):
+        # only distances are documented to accept python lists
+        if shape == 'list2' and dist:
+            return list(vals)
+        return np.array(list(vals), dtype=object)
 
     def unpack(a, what):
         if not isinstance(a, np.ndarray) or a.shape != (2, ):
@@ -270,7 +271,7 @@ def _sym_laws(ctx, m, mdl, cfg, pre=''):
             P = [R(m.calc_path_loss_dB(d, **mdl.kargs(cfg, i)))
                  for i, d in enumerate(ds)]
         else:
-            P = unpack(m.calc_path_loss_dB(pack(ds), **mdl.kargs(cfg)),
+            P = unpack(m.calc_path_loss_dB(pack(ds, True), **mdl.kargs(cfg)),
                        'calc_path_loss_dB')
             if P is None:
                 return
@@ -292,7 +293,7 @@ def _sym_laws(ctx, m, mdl, cfg, pre=''):
         lin = [R(m.calc_path_loss(d, **mdl.kargs(cfg, i)))
                for i, d in enumerate(ds)]
     else:
-        lin = unpack(m.calc_path_loss(pack(ds), **mdl.kargs(cfg)),
+        lin = unpack(m.calc_path_loss(pack(ds, True), **mdl.kargs(cfg)),
                      'calc_path_loss')
         if lin is None:
             return
@@ -364,15 +365,17 @@ def _float_laws(mdl, cfg, p, d1, d2, x=90.0, want_inverse=True):
         det = [mdl.oracle(cfg, p, d, i) for i, d in enumerate(ds)]
         near = any(abs(v) < 1e-6 for v in det)
 
-        def pack(v):
-            return np.array(v, dtype=float) if shape == 'array2' else list(v)
+        def pack(v, dist=False):
+            if shape == 'list2' and dist:
+                return list(v)
+            return np.array(v, dtype=float)
 
         try:
             if shape == 'scalar':
                 P = [m.calc_path_loss_dB(d, **mdl.kargs(cfg, i))
                      for i, d in enumerate(ds)]
             else:
-                Pa = m.calc_path_loss_dB(pack(ds), **mdl.kargs(cfg))
+                Pa = m.calc_path_loss_dB(pack(ds, True), **mdl.kargs(cfg))
                 if not isinstance(Pa, np.ndarray) or Pa.shape != (2, ):
                     bad['array-shape'] = repr(Pa)
                     return bad
@@ -404,7 +407,7 @@ def _float_laws(mdl, cfg, p, d1, d2, x=90.0, want_inverse=True):
                 lin = [m.calc_path_loss(d, **mdl.kargs(cfg, i))
                        for i, d in enumerate(ds)]
             else:
-                lin = list(m.calc_path_loss(pack(ds), **mdl.kargs(cfg)))
+                lin = list(m.calc_path_loss(pack(ds, True), **mdl.kargs(cfg)))
         except Exception as e:
             bad['exception:' + type(e).__name__] = repr(e)
             return bad
